@@ -80,8 +80,15 @@ func c07Gen(rng *verifsim.RNG, idx int, tier string) *Plan {
 	}
 	switch rng.Intn(5) {
 	case 0:
+		// every transmission is slow (sometimes slower than the 500 ms the answers
+		// are spread over): each RA still starts on time, they do not wait for
+		// each other
 		p.Class = "latency"
-		p.Faults = append(p.Faults, Fault{Seam: "write", Count: -1, Lat: int64(rng.Dur(time.Millisecond, 300*time.Millisecond))})
+		lat := rng.Dur(time.Millisecond, 300*time.Millisecond)
+		if rng.Bool(0.3) {
+			lat = rng.Dur(300*time.Millisecond, 2*time.Second)
+		}
+		p.Faults = append(p.Faults, Fault{Seam: "write", Count: -1, Lat: int64(lat)})
 	case 1:
 		p.Class = "faults"
 		p.Faults = append(p.Faults, Fault{Seam: "write", Key: []string{"uc", "mc", ""}[rng.Intn(3)], N: rng.Range(2, 12),
@@ -146,7 +153,7 @@ func c07Iface(info *runInfo, res *verifsim.Result, h *history, spec *IfaceSpec) 
 	ifn := spec.Name
 	base := strings.TrimSuffix(strings.TrimSuffix(info.plan.Class, "+2if"), "+slow-receive")
 	base = strings.TrimSuffix(base, "+2if")
-	exact := base == "exact" || base == "flap"
+	exact := base == "exact" || base == "flap" || base == "latency"
 	stopT, _, _ := stopInstant(h, 0)
 	taskG := 0
 	for i := range h.ev {
